@@ -14,7 +14,7 @@ ordered gate list (`evalOrd`) started with `σ` restricted to the old inputs and
 All theorems are generic in the `Config` (all 8 option combinations) and in the fuel.
 Property theorems only; helper lemmas are in `Flussab/Proof/Aig*.lean`.
 -/
-import Flussab.Proof.AigFinal
+import Flussab.Proof.AigComplete
 
 namespace Flussab.C12
 open Flussab Flussab.Aig
@@ -142,6 +142,23 @@ theorem renumber_ok_wellformed (cfg : Config) (a : Aig) (fuel : Nat) (o : Ordere
     (definedVars a).Nodup ∧ ∀ r ∈ roots cfg a, Grounded a (r / 2) :=
   ⟨renumber_ok_nodup h, renumber_ok_grounded h⟩
 
+/-- **Acceptance.**  A well-formed graph — no variable defined twice, every transferred root
+well-founded (acyclic and fully defined below it) — is renumbered successfully: no spurious
+`FoundCycle` from the mid-stack test, no spurious `LitNotDefined`, no fuel exhaustion.  Together
+with `renumber_order` and `renumber_sound` this is the positive half of the property. -/
+theorem renumber_accepts_wellformed (cfg : Config) (a : Aig) (fuel : Nat)
+    (hn : (definedVars a).Nodup) (hg : ∀ r ∈ roots cfg a, Grounded a (r / 2))
+    (hf : a.gates.length < fuel) : ∃ o m, renumber cfg a fuel = .ok (o, m) :=
+  renumber_complete hn hg hf
+
+/-- `Ok` exactly on the well-formed graphs (default fuel). -/
+theorem renumberAig_ok_iff_wellformed (cfg : Config) (a : Aig) :
+    (∃ o m, renumberAig cfg a = .ok (o, m)) ↔
+      ((definedVars a).Nodup ∧ ∀ r ∈ roots cfg a, Grounded a (r / 2)) := by
+  constructor
+  · rintro ⟨o, m, h⟩; exact renumber_ok_wellformed cfg a _ o m h
+  · rintro ⟨hn, hg⟩; exact renumber_complete hn hg (by unfold defaultFuel; omega)
+
 /-- **Termination.**  The model's recursion is structural in the fuel (so every call terminates);
 on a graph whose transferred roots are well-founded (acyclic, fully defined) a fuel — i.e. a stack
 depth — exceeding the number of gates is never exhausted, however deep the graph is.  In
@@ -170,11 +187,6 @@ def C12_renumber_errors_full : Prop :=
     DepStar a (r / 2) v → (Undefined a v ∨ OnCycle a v) →
     ∃ l, renumberAig cfg a = .error (.notDefined l) ∨ renumberAig cfg a = .error (.foundCycle l)
 
-/-- Not proved: a well-formed graph is accepted (no spurious error). -/
-def C12_renumber_complete_full : Prop :=
-  ∀ (cfg : Config) (a : Aig), (definedVars a).Nodup → (∀ r ∈ roots cfg a, Grounded a (r / 2)) →
-    ∃ o m, renumberAig cfg a = .ok (o, m)
-
 /-! ### Non-vacuity -/
 
 /-- Two inputs, one latch, four gates in non-topological order with negated and constant inputs,
@@ -195,7 +207,10 @@ example : ∃ o m, renumberAig ⟨true, true, true⟩ exAig = .ok (o, m) ∧ o.g
 example : ∃ o m, renumberAig ⟨false, false, false⟩ exAig = .ok (o, m) ∧ o.gates.length = 4 :=
   ⟨_, _, rfl, rfl⟩
 
-/-- `renumber_terminates`: the roots of `exAig` are well-founded. -/
+/-- `renumber_terminates` / `renumber_accepts_wellformed`: `exAig` is well-formed. -/
+example : (definedVars exAig).Nodup := by decide
+
+
 example : ∀ r ∈ roots ⟨true, true, true⟩ exAig, Grounded exAig (r / 2) :=
   (renumber_ok_wellformed _ exAig (defaultFuel exAig) _ _ rfl).2
 
